@@ -52,9 +52,10 @@ Proof. constructor; cbn; auto. Qed.
 (* Tactics: decide membership formulas by case analysis                *)
 (* ------------------------------------------------------------------ *)
 
-Ltac mem_norm :=
-  cbn [incoming outgoing learners learners_next auto_leave fst snd] in *;
-  rewrite ?mem_insert, ?mem_remove, ?mem_union, ?mem_filter, ?mem_app, ?mem_of_list in *.
+Ltac mem_norm1 :=
+  cbn beta iota delta [incoming outgoing learners learners_next auto_leave fst snd] in *;
+  rewrite ?mem_nil, ?mem_insert, ?mem_remove, ?mem_union, ?mem_filter, ?mem_app, ?mem_of_list in *.
+Ltac mem_norm := mem_norm1; repeat (progress mem_norm1).
 
 Ltac case_eqb_on a b :=
   let e := fresh "e" in
